@@ -513,7 +513,9 @@ def free_case(rng):
                          fin=rng.choice(["nil", "nil", "err", "panic"]), finval=rand_val(rng) if rng.random() < 0.4 else "",
                          panicval=rng.choice(PANICVALS)))
     total = sum(ncalls(th["steps"]) for th in threads)
-    return C(free=True, conns=[{"kind": "db", "accept": 0} for _ in range(nconns)], threads=threads,
+    # half of the cases: a goroutine per SqlConn keeps failing requests on it meanwhile - its breaker opens while bodies
+    # run (calls refused at the door run nothing; a transaction that has begun is still ended, whatever the breaker says)
+    return C(free=True, tripper=rng.random() < 0.5, conns=[{"kind": "db", "accept": 0} for _ in range(nconns)], threads=threads,
              oracle=rand_oracle(rng, total, rng.choice([0.0, 0.1, 0.3]), 0.0, 0.0))
 
 
